@@ -88,12 +88,52 @@ def analyse_mapped(mapped):
     return None, phases, refl, losses
 
 
+def composite_circuits(env):
+    """Lossless circuits that are not a bare Unitary: heralds arriving through added sub-circuits
+    (one and two levels deep), groups, swaps, together with heralds placed directly."""
+    def hsub(k, heralds):
+        s = lw.Unitary(kernel.haar(k, env.seed + 300 + k + len(heralds)))
+        for h in heralds:
+            s.herald(*h)
+        return s
+
+    def one_level():
+        c = lw.Circuit(3); c.bs(0, reflectivity=env.R[1]); c.add(hsub(3, [(1, 1, 1)]), 1); c.ps(2, env.PH[0]); c.bs(1, 2)
+        return c
+
+    def two_subs_and_direct():
+        c = lw.Circuit(5); c.bs(0, 2, reflectivity=env.R2); c.add(hsub(3, [(1, 0, 2)]), 0)
+        c.add(hsub(4, [(0, 3, 0), (2, 1, 2)]), 2); c.mode_swaps({0: 4, 4: 0}); c.herald(1, 4, 1)
+        return c
+
+    def nested():
+        mid = lw.Circuit(3); mid.add(hsub(3, [(1, 1, 1)]), 1); mid.bs(0, 2, reflectivity=env.R[1]); mid.herald(0, 2, 0)
+        c = lw.Circuit(4); c.add(mid, 1); c.bs(0); c.add(mid, 0, group=True); c.ps(3, env.PH[1])
+        return c
+
+    def grouped_plain():
+        g = lw.Circuit(2); g.bs(0, reflectivity=env.R[1]); g.ps(1, env.PH[2])
+        c = lw.Circuit(3); c.add(g, 1, group=True); c.bs(0, convention="H"); c.herald(1, 0, 2)
+        return c
+
+    def sub_only():
+        c = lw.Circuit(2); c.add(hsub(4, [(1, 0, 3), (0, 2, 1)]), 0)
+        return c
+
+    return [("one_level", one_level), ("two_subs_and_direct", two_subs_and_direct), ("nested", nested),
+            ("grouped_plain", grouped_plain), ("sub_only", sub_only)]
+
+
 def check_default(label, u, heralds, env, acc):
-    n = u.shape[0]
     case = {"unitary": label, "heralds": heralds, "seed": env.seed}
-    c = lw.Unitary(u.copy())
-    for h in heralds:
-        c.herald(*h)
+    if u is None:
+        c = dict(composite_circuits(env))[label[1]]()
+        u = c.U_full
+    else:
+        c = lw.Unitary(u.copy())
+        for h in heralds:
+            c.herald(*h)
+    n = u.shape[0]
     acc.tick("executions"); acc.tick("transitions")
     try:
         m = itf.Reck().map(c)
@@ -109,6 +149,8 @@ def check_default(label, u, heralds, env, acc):
         acc.violation("mapped_unitary_differs", case, {"max_err": err})
     if m.heralds != c.heralds:
         acc.violation("heralds_differ", case, {"mapped": m.heralds, "original": c.heralds})
+    if m.input_modes != c.input_modes:
+        acc.violation("visible_mode_count_differs", case, {"mapped": m.input_modes, "original": c.input_modes})
     out_of_range = [p for p in phases if not (0 <= p < TWO_PI)]
     if out_of_range:
         acc.violation("phase_outside_[0,2pi)", case, {"phases": out_of_range[:3], "count": len(out_of_range)})
@@ -368,6 +410,8 @@ def run(tier, seed):
     for label, u in st:
         for lay in herald_layouts(u.shape[0]):
             jobs.append(("default", label, u, lay))
+    for nm, _ in composite_circuits(env):
+        jobs.append(("default", ("composite", nm), None, ()))
     # error models on a few circuits incl. in != out heralds
     em_circs = [(("haar", 3), kernel.haar(3, env.seed + 43), ()), (("haar", 4), kernel.haar(4, env.seed + 44), ((1, 0, 3),)),
                 (("perm", 3), np.array([[0, 1, 0], [0, 0, 1], [1, 0, 0]], dtype=complex), ((0, 1, 1),)),
@@ -397,8 +441,9 @@ def run(tier, seed):
         "rule": "default error model: every phased permutation matrix with phases in {1,-1,i} for n<=3 (and n=4: all "
                 "in thorough, {1,-1} plus a slice in quick), identity/-identity/i*identity/antidiagonal/DFT/Haar/real "
                 "orthogonal for n<=5, block matrices H+1, 1+H, HxH, Givens products with exact zeros, three "
-                "near-degenerate families with eps from 1e-3 down to 1e-23, each with herald layouts incl. in!=out; "
-                "oracle: same U (1e-8), only adjacent bs/ps/barriers, phases in [0,2pi), heralds equal, no loss. "
+                "near-degenerate families with eps from 1e-3 down to 1e-23, each with herald layouts incl. in!=out; 5 "
+                "composite circuits whose heralds come from added sub-circuits (one and two levels, grouped, with direct heralds); "
+                "oracle: same U (1e-8), only adjacent bs/ps/barriers, phases in [0,2pi), heralds and visible modes equal, no loss. "
                 "Error models: every combination of 4x4x3 distribution choices x 4 circuits x map seeds {0,1,2} twice "
                 "each: declared bounds, reproducibility, phases, U_full unitary, U sub-unitary. E3: every scripted "
                 "answer sequence of the Gaussian resampling loop with <=3 out-of-range answers (4 kinds) followed by "
@@ -423,6 +468,9 @@ def replay(w, acc):
         return
     label = case["unitary"]
     lab = tuple(tuple(x) if isinstance(x, list) else x for x in label)
+    if lab and lab[0] == "composite":
+        check_default(lab, None, (), env, acc)
+        return
     pool = list(structured(env, "thorough"))
     for n in (2, 3, 4):
         pool += list(phased_permutations(n, [1, -1, 1j, -1j]))
